@@ -1,6 +1,6 @@
 (* Extract/Codec.v — S-expression encoders / decoders for the model types (Appendix B of DESIGN) *)
 From Coq Require Import List Bool Ascii String ZArith.
-From FM Require Import Base.Result Base.Str Base.Sexp Base.AstOp Model.Ast Model.FM Model.PFM Format.Xml Format.Uvl Format.Afm.
+From FM Require Import Base.Result Base.Str Base.Sexp Base.AstOp Model.Ast Model.FM Model.PFM Model.Heap Format.Xml Format.Uvl Format.Afm.
 Import ListNotations.
 Open Scope string_scope.
 
@@ -493,3 +493,39 @@ Definition d_adoc (s : sexp) : option adoc :=
       end
   | _ => None
   end.
+
+(* ---- heap of feature objects (Model/Heap.v) ---- *)
+Definition d_optnat (s : sexp) : option (option nat) :=
+  match s with
+  | SAtom "nil" => Some None
+  | _ => match d_nat s with Some n => Some (Some n) | None => None end
+  end.
+
+Definition d_hop (s : sexp) : option hop :=
+  match s with
+  | SList [SAtom "new"; SStr nm; p] =>
+      match d_optnat p with Some p' => Some (HNew nm p') | None => None end
+  | SList [SAtom "addrel"; f; rp; mn; mx; SList cs] =>
+      match d_nat f, d_nat rp, d_z mn, d_z mx, omap d_nat cs with
+      | Some f', Some rp', Some a, Some b, Some cs' => Some (HAddRel f' rp' a b cs')
+      | _, _, _, _, _ => None
+      end
+  | SList [SAtom "delrel"; f; k] =>
+      match d_nat f, d_nat k with Some f', Some k' => Some (HDelRel f' k') | _, _ => None end
+  | SList [SAtom "addchild"; f; k; c] =>
+      match d_nat f, d_nat k, d_nat c with Some f', Some k', Some c' => Some (HAddChild f' k' c') | _, _, _ => None end
+  | SList [SAtom "setparent"; c; p] =>
+      match d_nat c, d_optnat p with Some c', Some p' => Some (HSetParent c' p') | _, _ => None end
+  | _ => None
+  end.
+
+Definition e_hrel (r : hrel) : sexp :=
+  e_tag "r" [e_nat (hr_owner r); e_z (hr_min r); e_z (hr_max r); e_list e_nat (hr_children r)].
+
+(* one entry per object: its fields and what its pointer-following queries answer *)
+Definition e_heap (h : heap) : sexp :=
+  SList (map (fun i =>
+                e_tag "f" [SStr (h_name h i); e_opt e_nat (h_parent h i); e_list e_hrel (h_rels h i);
+                           e_list e_nat (h_children h i); e_bool (h_is_root h i); e_bool (h_is_leaf h i);
+                           e_bool (h_is_mandatory h i); e_bool (h_is_optional h i)])
+             (seq 0 (List.length h))).
